@@ -459,13 +459,13 @@ def _bash_words(raws, env):
     if not raws:
         return []
     script = "".join(f"printf '%s\\0' {r}\nprintf '\\1\\n'\n" for r in raws)
-    p = subprocess.run(["bash", "-c", script], capture_output=True, env={"PATH": os.environ.get("PATH", ""), **env})
+    p = subprocess.run(["bash", "-c", script], capture_output=True, env={**os.environ, **env})
     chunks = p.stdout.split(b"\x01\n")
     if p.returncode == 0 and len(chunks) == len(raws) + 1 and chunks[-1] == b"":
         return [[w.decode("utf-8", "replace") for w in c.split(b"\0")[:-1]] for c in chunks[:-1]]
     out = []
     for r in raws:  # a token broke the script: evaluate one by one
-        q = subprocess.run(["bash", "-c", f"printf '%s\\0' {r}"], capture_output=True, env={"PATH": os.environ.get("PATH", ""), **env})
+        q = subprocess.run(["bash", "-c", f"printf '%s\\0' {r}"], capture_output=True, env={**os.environ, **env})
         out.append([w.decode("utf-8", "replace") for w in q.stdout.split(b"\0")[:-1]] if q.returncode == 0 else None)
     return out
 
